@@ -330,6 +330,14 @@ def explore(run_path, assert_on=True, max_paths=20000, setup=None, deadline=None
             pass
         except Unsupported as e:
             res.unsupported.append("%s [path %s]" % (e, ''.join('T' if b else 'F' for b in ctx.trace)))
+        except (KeyError, AttributeError, IndexError, TypeError, NameError, AssertionError, z3.Z3Exception) as e:
+            # contract / invariant code that no longer fits the function (renamed local, changed structure): the
+            # obligation is UNDECIDED (stale contract), never a violation and not a checker crash
+            import traceback
+            tb = traceback.extract_tb(e.__traceback__)[-1]
+            res.unsupported.append("stale contract or engine limitation: %s: %s (%s:%d) [path %s]"
+                                   % (type(e).__name__, str(e)[:120], os.path.basename(tb.filename), tb.lineno,
+                                      ''.join('T' if b else 'F' for b in ctx.trace)))
         res.paths += 1
         res.obligations.extend(ctx.obligations)
         res.solver_secs += ctx.solver_secs
